@@ -1,5 +1,8 @@
 #!/usr/bin/env python3
-"""Developer loop: generate + verify one unit, print failures with rendered diagnostics."""
+"""Developer loop: generate + verify one unit, print failures with rendered diagnostics.
+usage: dev.py <unit> [-t times] [-c canaries] [-s replay sweep of the original text]
+env: VERIF_REPO=<dir> checks a scratch copy of the repository instead of /repo (e.g. to try a deliberately broken body),
+     VF_WD=<dir> work directory (default /var/tmp/vfdev)."""
 import sys, os
 sys.path.insert(0, os.path.dirname(os.path.abspath(__file__)))
 import vf
@@ -19,3 +22,11 @@ try:
     if '-c' in sys.argv: print(vf.run_canaries(unit, wd))
 except vf.Undecided as u:
     print('UNDECIDED', u.reason); print(u.detail)
+
+if '-s' in sys.argv:
+    import replay as RP
+    sw = RP.sweep_unit(unit, wd, 0)
+    if not sw['built']: print('SWEEP driver does not build:', sw['note']); print(RP.build_driver(unit, wd)[1])
+    else:
+        print('SWEEP evaluated', sw['evaluated'], 'fails', len(sw['fails']))
+        for f in sw['fails']: print('  FAIL', f)
